@@ -30,6 +30,7 @@ def bounds(tier):
     return {"perm": f"partition: values 0..4, 1..5 items (all permutations), k=2..4; packing B=6 values 0..6 1..{4 if q else 5} items; covering B=6 values 1..9 1..{4 if q else 5} items",
             "scale": "partition: values 0..5, 1..5 items, k=1..4; packing: all sequences 1..4 items over 0..6 (B=6); covering: multisets 1..5 items over 1..9 (B=6)",
             "zeros": f"values 1..6, 1..{5 if q else 6} items, k=2..4, +1/+2 zeros",
+            "agree-fine": "offset letters {b/2+7, b+1, b+5, b+6, 2b+1, 2b+8}, b in {1e5, 1e6, 2**24, 1e9}, 4..5(6) items, k=2..3; 7 items over fibonacci 1..21" + ("" if q else " and 8 items over 1..34") + ", k=3: cg/ckk/snp/rnp/dp (both output families) must agree",
             "agree": ("11 items over {1,3,5} and over {2,3,5}, k=2..4, cg/ckk/snp/rnp/dp(k<=3)/ilp; planted+1 (12..13 items... up to 4 parts per pattern): k=3 patterns, without ilp" if q else "11..13 items over {1,2,3,5}, k=2..5 (snp/rnp k<=4, and k<=3 above 11 items); planted+1: k=3,4 patterns, with ilp")}
 
 
@@ -58,6 +59,14 @@ def tasks(tier):
         for n in (11, 12, 13):
             for ch in scopes.chunk_multisets((1, 2, 3, 5), n, n, 6):
                 ts.append(("agree", ch, (2, 3, 4, 5)))
+    # fine-grained values: large base + small offsets; values spread over two orders of magnitude (dp in both output families)
+    for ch in spaces.chunked(scopes.offset_multisets(4, 5 if q else 6), 12):
+        ts.append(("agree-fine", ch, (2, 3)))
+    for ch in scopes.chunk_multisets((1, 2, 3, 5, 8, 13, 21), 7, 7, 12):
+        ts.append(("agree-fine", ch, (3,)))
+    if not q:
+        for ch in scopes.chunk_multisets((1, 2, 3, 5, 8, 13, 21, 34), 8, 8, 12):
+            ts.append(("agree-fine", ch, (3,)))
     for k in ((3,) if q else (3, 4)):
         gen = (tuple(sorted(it + (1,), reverse=True)) for it, _ in spaces.planted(12, (2, 3, 4, 5, 6, 7), k, maxparts=4))
         for ch in spaces.chunked(gen, 8):
@@ -215,6 +224,11 @@ def _agree(acc, ms, ks, big, ilp=True):
             if s is None or len(s) != k or sum(s) != sum(base):
                 acc.violation(algo, cfg_str(case), inp_str(case), "raises_or_not_a_partition", "sums", obs[1:], case); continue
             vals.setdefault(spec, {})[algo] = _value(spec, s)
+            if algo == "dp" and not big:       # dp has one code path per output family
+                c2 = dict(case, out="PartitionAndSumsTuple")
+                obs2 = repo.call(c2); acc.ran("dp")
+                if obs2[0] == "ok" and obs2[1] is not None:
+                    vals[spec]["dp/partition-output"] = _value(spec, list(obs2[1][0]))
         heur = {}
         for algo in SORTING_PARTITIONERS:
             s, _ = _sums(acc, {"algo": algo, "items": base, "k": k, "out": "Sums"})
@@ -226,7 +240,8 @@ def _agree(acc, ms, ks, big, ilp=True):
             best = min(by.values())
             if len(set(by.values())) > 1:
                 worst = [a for a, v in by.items() if v != best]
-                case = {"algo": worst[0], "items": base, "k": k, "out": "Sums", "rel": "agree",
+                worst = [a.split("/")[0] for a in worst]
+                case = {"algo": worst[0], "items": base, "k": k, "out": "Sums", "rel": "agree", "fine": not big,
                         "kw": {} if worst[0] in EXACT_DIFF else {"objective": spec}}
                 acc.violation(worst[0], cfg_str(case), inp_str(case), "exact_algorithms_disagree", f"{spec}: {best}", by, case)
             for h, s in heur.items():
@@ -251,6 +266,7 @@ def run_task(task):
         elif scope == "scale-packing": _scale_sized(acc, ms, size, scopes.PACK_ALGOS)
         elif scope == "scale-covering": _scale_sized(acc, ms, size, scopes.COVER_ALGOS)
         elif scope == "zeros": _zeros(acc, ms, size)
+        elif scope == "agree-fine": _agree(acc, ms, size, False, ilp=False)
         else: _agree(acc, ms, size, True, ilp=(scope != "agree-planted"))
     acc.sample({"scope": scope, "first": list(chunk[0]), "size": list(size) if isinstance(size, tuple) else size})
     return acc
@@ -269,4 +285,4 @@ def replay(case, acc):
     elif rel == "zeros":
         _zeros(acc, base, (case["k"],))
     else:
-        _agree(acc, tuple(case["items"]), (case["k"],), True)
+        _agree(acc, tuple(case["items"]), (case["k"],), not case.get("fine"), ilp=not case.get("fine"))
